@@ -54,6 +54,19 @@ def _canon1(d):
             f = dict(n[2][2:])
             if str(n[1]) in f:
                 return canon(f[str(n[1])])
+        if n[0] == 'itervar' and isinstance(n[1], tuple) and n[1][0] == 'call' and n[1][1] == 'Iterator::skip' and len(n[1]) == 4 \
+                and isinstance(n[1][2], tuple) and n[1][2][0] == 'call' and n[1][2][1] == 'Iterator::enumerate':
+            S = canon(n[1][2][2])
+            I2 = ('itervar', ('range', canon(n[1][3]), ('len', S))) + tuple(n[2:])
+            return ('agg', 'tuple', ('0', I2), ('1', ('index', S, I2)))
+        if n[0] == 'itervar' and isinstance(n[1], tuple) and n[1][0] == 'call' and n[1][1] == 'slice::windows' and len(n[1]) == 4 and n[1][3] == ('const', 2):
+            S = canon(n[1][2])
+            I = ('itervar', ('range', ('const', 0), ('sub', ('len', S), ('const', 1)))) + tuple(n[2:])
+            return ('agg', 'array', ('0', ('index', S, I)), ('1', ('index', S, ('add', ('const', 1), I))))
+        if n[0] == 'index' and len(n) == 3 and isinstance(n[1], tuple) and n[1] and n[1][0] == 'agg' and n[1][1] == 'array' and n[2][0] == 'const':
+            f = dict(n[1][2:])
+            if str(n[2][1]) in f:
+                return canon(f[str(n[2][1])])
         if n[0] == 'itervar':
             src = n[1]
             if isinstance(src, tuple) and src[0] in ('range', 'rangeincl'):
@@ -71,10 +84,13 @@ def _canon1(d):
 
 
 def _chain(facts, d):
-    """d = iterator expression -> (SRC, element DAG over the canonical running element, conds) or None"""
+    """d = iterator expression -> list of (SRC, element DAG over the canonical running element, conds) - one entry per element a
+    source item yields (flat_map over an array literal yields several) - or None when a stage is not understood"""
+    from .guards import norm_literal
     stages = []
     x = d
-    while isinstance(x, tuple) and x and x[0] == 'call' and x[1] in ('Iterator::map', 'Iterator::filter', 'Iterator::enumerate') + ADAPTERS_TRANSPARENT:
+    KNOWN = ('Iterator::map', 'Iterator::filter', 'Iterator::enumerate', 'Iterator::filter_map', 'Iterator::flat_map', 'Iterator::skip') + ADAPTERS_TRANSPARENT
+    while isinstance(x, tuple) and x and x[0] == 'call' and x[1] in KNOWN:
         stages.append(x)
         x = x[2]
     src = x
@@ -83,34 +99,82 @@ def _chain(facts, d):
         f = dict(src[2:])
         cur = ('itervar', ('range', f.get('start'), f.get('end')))
         S = ('range', f.get('start'), f.get('end'))
+    elif src[0] == 'call' and src[1] == 'slice::windows' and len(src) == 4 and src[3] == ('const', 2):
+        S = canon(src[2])
+        I = ('itervar', ('range', ('const', 0), ('sub', ('len', S), ('const', 1))))
+        cur = ('agg', 'array', ('0', ('index', S, I)), ('1', ('index', S, ('add', ('const', 1), I))))
     else:
         S = canon(src)
         cur = ('index', S, IDX(S))
-    conds = []
+    outs = [(cur, [])]
     first = True
+    positional = True       # positions still are source positions (no filter passed yet)
     for st in stages:
         nm = st[1]
         if nm in ADAPTERS_TRANSPARENT:
             continue
         if nm == 'Iterator::enumerate':
-            if not first or S[0] == 'range':
-                return None         # positions after a filter are not source positions
-            cur = ('agg', 'tuple', ('0', IDX(S)), ('1', cur))
+            if not positional or S[0] == 'range' or len(outs) != 1:
+                return None
+            outs = [(('agg', 'tuple', ('0', IDX(S)), ('1', outs[0][0])), outs[0][1])]
             continue
-        first = first and nm != 'Iterator::filter'
+        if nm == 'Iterator::skip':
+            # only directly after enumerate on a slice: positions k..len
+            k = canon(st[3])
+            if not positional or len(outs) != 1:
+                return None
+            I2 = ('itervar', ('range', k, ('len', S)))
+
+            def shift(n, I2=I2):
+                return I2 if n == IDX(S) else None
+            outs = [(simplify(IN.subst(outs[0][0], shift)), outs[0][1])]
+            continue
         cl = st[3] if len(st) > 3 else None
         if not (isinstance(cl, tuple) and cl and cl[0] == 'closure'):
             return None
-        r = IN.closure_apply(facts, cl, (cur,))
-        if r is None:
-            return None
-        r = canon(r)
-        if nm == 'Iterator::map':
-            cur = r
-        else:
-            from .guards import norm_literal
-            conds += norm_literal(r, True)
-    return S, canon(cur), conds
+        nxt = []
+        for cur, conds in outs:
+            r = IN.closure_apply(facts, cl, (cur,))
+            if r is None:
+                return None
+            r = canon(r)
+            if nm == 'Iterator::map':
+                nxt.append((r, conds))
+            elif nm == 'Iterator::filter':
+                nxt.append((cur, conds + norm_literal(r, True)))
+            elif nm == 'Iterator::filter_map':
+                o = _option_value(facts, r)
+                if o is None:
+                    return None
+                nxt.append((canon(o[0]), conds + o[1]))
+            elif nm == 'Iterator::flat_map':
+                if r[0] == 'agg' and r[1] in ('array', 'tuple'):
+                    for _, v in r[2:]:
+                        nxt.append((canon(v), conds))
+                else:
+                    return None
+        if nm in ('Iterator::filter', 'Iterator::filter_map', 'Iterator::flat_map'):
+            positional = False
+        outs = nxt
+    return [(S, canon(e), c) for e, c in outs]
+
+
+def _option_value(facts, r):
+    """an Option-valued DAG as (value when Some, literals that make it Some), for the combinator spellings"""
+    from .guards import norm_literal
+    if r[0] == 'call' and r[1] == 'Option::map' and len(r) == 4 and r[3][0] == 'closure':
+        v = IN.closure_apply(facts, r[3], (('unwrap', r[2]),))
+        return (v, [(('is', r[2], 'Some'), True)]) if v is not None else None
+    if r[0] == 'call' and r[1] == 'Result::ok' and len(r) == 3:
+        return (('unwrap', r[2]), [(('is', r[2], 'Ok'), True)])
+    if r[0] == 'call' and r[1] == 'bool::then' and len(r) == 4 and r[3][0] == 'closure':
+        v = IN.closure_apply(facts, r[3], ())
+        return (v, norm_literal(r[2], True)) if v is not None else None
+    if r[0] == 'call' and r[1] == 'bool::then_some' and len(r) == 4:
+        return (r[3], norm_literal(r[2], True))
+    if r[0] == 'agg' and r[1].endswith('Option::Some'):
+        return (dict(r[2:]).get('0'), [])
+    return None
 
 
 def comprehensions(cx, b, d):
@@ -120,8 +184,8 @@ def comprehensions(cx, b, d):
     # ---- chain forms: collect(chain), or extend(vec, chain) somewhere on the spine
     m = match('(call Iterator::collect $c)', d)
     if m is not None:
-        r = _chain(cx.facts, m['c'])
-        if r is not None:
+        rs = _chain(cx.facts, m['c'])
+        for r in rs or ():
             out.append({'src': r[0], 'elem': r[1], 'conds': r[2], 'site': b.file, 'form': 'chain'})
         return out
     # ---- loop forms: every push / extend event on the spine of d
@@ -153,9 +217,10 @@ def comprehensions(cx, b, d):
                 src = rg[2][1] if (rg[0] == 'range' and isinstance(rg[2], tuple) and rg[2][0] == 'len') else rg
             out.append({'src': src, 'elem': e, 'conds': conds, 'site': site_bb, 'form': 'loop'})
         elif callee == 'Vec::extend' and len(args) == 1:
-            r = _chain(cx.facts, args[0])
-            if r is not None:
-                out.append({'src': r[0], 'elem': r[1], 'conds': r[2], 'site': site_bb, 'form': 'extend'})
+            rs = _chain(cx.facts, args[0])
+            if rs is not None:
+                for r in rs:
+                    out.append({'src': r[0], 'elem': r[1], 'conds': r[2], 'site': site_bb, 'form': 'extend'})
             else:
                 out.append({'src': None, 'elem': ('extend', canon(args[0])), 'conds': [], 'site': site_bb, 'form': 'extend-opaque'})
     for i in inits:
